@@ -334,7 +334,15 @@ func runC04(c *Ctx) {
 	want := map[string]int64{"SevUnmeasuredSection": pt("PageTypeUnmeasured"), "SevSecretSection": pt("PageTypeSecret"), "SevCpuidSection": pt("PageTypeCpuid"), "SevSvsmCaaSection": pt("PageTypeZero")}
 	nTables := 0
 	tableIn := map[*ssa.Function]bool{}
+	var checkTableWith func(f *ssa.Function, pos token.Pos, mapping map[string]int64, subject func(ssa.Value) bool)
 	checkTable := func(f *ssa.Function, pos token.Pos, mapping map[string]int64) {
+		checkTableWith(f, pos, mapping, func(v ssa.Value) bool {
+			return sl.Derives(v, func(x ssa.Value) bool {
+				return flow.IsFieldLoad(x, repoPath("ovmf/abi"), "SevMetadataSection", "Kind")
+			})
+		})
+	}
+	checkTableWith = func(f *ssa.Function, pos token.Pos, mapping map[string]int64, subject func(ssa.Value) bool) {
 		nTables++
 		tableIn[f] = true
 		var diffs []string
@@ -359,11 +367,7 @@ func runC04(c *Ctx) {
 		sort.Strings(diffs)
 		c.S.Check(len(diffs) == 0, "R2", load.FuncName(f)+":kind→page type", c.pos(pos), "the four section kinds map to unmeasured/secret/cpuid/zero", strings.Join(diffs, "; "))
 		// default rejects
-		c.S.Check(chainDefaultIsError(f, func(v ssa.Value) bool {
-			return sl.Derives(v, func(x ssa.Value) bool {
-				return flow.IsFieldLoad(x, repoPath("ovmf/abi"), "SevMetadataSection", "Kind")
-			})
-		}), "R2", load.FuncName(f)+":unknown kind", c.pos(pos), "an unknown section kind is an error", "an unknown section kind is not rejected")
+		c.S.Check(chainDefaultIsError(f, subject), "R2", load.FuncName(f)+":unknown kind", c.pos(pos), "an unknown section kind is an error", "an unknown section kind is not rejected")
 	}
 	for f := range relevant {
 		if load.RelPkg(f) != "sev" {
@@ -448,6 +452,77 @@ func runC04(c *Ctx) {
 		}
 		if len(mapping) >= 2 {
 			checkTable(f, first, mapping)
+		}
+	}
+	// classifier helpers: a function of package sev that returns a PageType chosen by comparisons of a parameter
+	// which, at its call sites, receives a section's Kind
+	{
+		kindDerived := func(v ssa.Value) bool {
+			return sl.Derives(v, func(x ssa.Value) bool {
+				return flow.IsFieldLoad(x, repoPath("ovmf/abi"), "SevMetadataSection", "Kind")
+			})
+		}
+		for _, g := range c.P.RepoFunctions() {
+			if load.RelPkg(g) != "sev" || c.isTestFunc(g) || tableIn[g] || g.Signature.Results().Len() == 0 || !namedIs(g.Signature.Results().At(0).Type(), sevPkg, "PageType") {
+				continue
+			}
+			// which parameter carries the kind?
+			var kp *ssa.Parameter
+			if n := c.P.CallGraph().Nodes[g]; n != nil {
+				for _, e := range n.In {
+					if e.Site == nil || e.Site.Common().IsInvoke() {
+						continue
+					}
+					for i, a := range e.Site.Common().Args {
+						if i < len(g.Params) && kindDerived(a) {
+							kp = g.Params[i]
+						}
+					}
+				}
+			}
+			if kp == nil {
+				continue
+			}
+			subject := func(v ssa.Value) bool { return stripConv(v) == kp }
+			mapping := map[string]int64{}
+			var first token.Pos
+			for _, b := range g.Blocks {
+				ret, ok := b.Instrs[len(b.Instrs)-1].(*ssa.Return)
+				if !ok {
+					continue
+				}
+				k, isK := ret.Results[0].(*ssa.Const)
+				if !isK || k.Value == nil {
+					continue
+				}
+				if ei := errIndex(g.Signature); ei >= 0 {
+					if ek, isNil := ret.Results[ei].(*ssa.Const); !isNil || !ek.IsNil() {
+						continue // the rejecting default
+					}
+				}
+				for _, cf := range dominatingConds(b) {
+					bo, ok := cf.Cond.(*ssa.BinOp)
+					if !ok || bo.Op != token.EQL || !cf.Val || !subject(bo.X) {
+						continue
+					}
+					kc, ok := bo.Y.(*ssa.Const)
+					if !ok || kc.Value == nil {
+						continue
+					}
+					if nm, ok := kinds[kc.Int64()]; ok {
+						mapping[nm] = k.Int64()
+					} else {
+						mapping[fmt.Sprintf("kind %d", kc.Int64())] = k.Int64()
+					}
+					if !first.IsValid() {
+						first = ret.Pos()
+					}
+					break
+				}
+			}
+			if len(mapping) >= 2 {
+				checkTableWith(g, first, mapping, subject)
+			}
 		}
 	}
 	c.S.Floor("R2", "section-kind to page-type tables", 1, nTables)
@@ -612,14 +687,7 @@ func runC04(c *Ctx) {
 										continue
 									}
 									// the object written must be one that is put into the returned list
-									listed := false
-									for _, r := range nonDebugRefs(root) {
-										if st2, ok := r.(*ssa.Store); ok && st2.Val == root {
-											if _, isElem := st2.Addr.(*ssa.IndexAddr); isElem {
-												listed = true
-											}
-										}
-									}
+									listed := c.putIntoList(root, 0)
 									if !listed {
 										continue
 									}
@@ -683,4 +751,59 @@ func innermostLoopContainingNext(f *ssa.Function, rg *ssa.Range) *loop {
 		}
 	}
 	return nil
+}
+
+// putIntoList: v is stored as an element of a slice/array in its function, or returned to callers (static call
+// sites) that store the corresponding result as an element.
+func (c *Ctx) putIntoList(v ssa.Value, depth int) bool {
+	if v == nil || depth > 2 {
+		return false
+	}
+	for _, r := range nonDebugRefs(v) {
+		switch x := r.(type) {
+		case *ssa.Store:
+			if x.Val == v {
+				if _, isElem := x.Addr.(*ssa.IndexAddr); isElem {
+					return true
+				}
+			}
+		case *ssa.Phi:
+			if c.putIntoList(x, depth) {
+				return true
+			}
+		case *ssa.Return:
+			idx := -1
+			for i, res := range x.Results {
+				if res == v {
+					idx = i
+				}
+			}
+			fn := x.Parent()
+			n := c.P.CallGraph().Nodes[fn]
+			if n == nil || idx < 0 {
+				continue
+			}
+			for _, e := range n.In {
+				if e.Site == nil || e.Site.Common().IsInvoke() || e.Site.Common().StaticCallee() != fn {
+					continue
+				}
+				cv := e.Site.Value()
+				if cv == nil {
+					continue
+				}
+				if fn.Signature.Results().Len() == 1 {
+					if c.putIntoList(cv, depth+1) {
+						return true
+					}
+					continue
+				}
+				for _, r2 := range nonDebugRefs(cv) {
+					if ex, ok := r2.(*ssa.Extract); ok && ex.Index == idx && c.putIntoList(ex, depth+1) {
+						return true
+					}
+				}
+			}
+		}
+	}
+	return false
 }
